@@ -171,7 +171,8 @@ STAKING_REACH_PUNISH = ["TooAbsent", "JailedForAbsence", "SwitchedOffInGrace", "
 STAKING_REACH_VOTES = ["VoteOk", "VoteExpired", "VoteTwice", "VoteByStranger", "Halted", "HaltVotesNotEnough", "HaltExactlyTwoThirds", "UpdateApplied",
                        "UpdateVotesNotEnough", "UpdateCompeting", "VotesForgotten"]
 STAKING_REACH_CANDS = ["DeclareOk", "DeclareExisting", "DeclareWrongCommission", "EditCandidateOk", "EditByNewOwner", "EditByStranger", "CommissionOk", "CommissionTooFar",
-                       "CommissionTooSoon", "CommissionByControl", "NewCandidateIsValidator"]
+                       "CommissionTooSoon", "CommissionByControl", "NewCandidateIsValidator", "KeyChanged", "KeyChangedTwice", "KeyTaken", "KeyBlocked",
+                       "KeyChangeByStranger", "ValidatorFollowsKey"]
 MC["staking"] = {"quick": [("MCStaking", "mc/MCStaking_exits.cfg", {"reach": STAKING_REACH_EXITS}), ("MCStaking", "mc/MCStaking_punish.cfg", {"reach": STAKING_REACH_PUNISH}),
                            ("MCStaking", "mc/MCStaking_votes.cfg", {"reach": STAKING_REACH_VOTES}),
                            ("MCStaking", "mc/MCStaking_cands.cfg", {"reach": STAKING_REACH_CANDS})],
